@@ -382,6 +382,16 @@ func (p *printer) litItems(n int, multi bool, item func(i int)) {
 		if !p.canonical() && p.lay.R.Intn(6) == 0 {
 			p.b.WriteString(" ")
 		}
+		if p.chance(p.lay0().Comments) {
+			// an empty literal spread over several lines with a comment inside
+			p.ncomm++
+			p.b.WriteString("\n")
+			p.depth++
+			p.indent()
+			p.b.WriteString("// empty " + strconv.Itoa(p.ncomm) + "\n")
+			p.depth--
+			p.indent()
+		}
 		return
 	}
 	if multi {
